@@ -18,6 +18,7 @@ TInit == Init /\ l = 1
 Begin == /\ l <= Len(Trace) /\ Trace[l].ev = "begin"
          /\ pc' = "start" /\ fault' = Trace[l].fault /\ parsed' = FALSE /\ loaded' = FALSE
          /\ targetStarted' = FALSE /\ exitCode' = -1 /\ events' = <<>> /\ l' = l + 1
+         /\ big' = FALSE /\ atEnd' = FALSE /\ complete' = FALSE
 \* unlogged steps of the program (argument handling, parsing)
 Silent == (Args \/ Parse) /\ pc' # "exited" /\ UNCHANGED l
 SeccompOK == /\ l <= Len(Trace) /\ Trace[l].ev = "seccomp" /\ Trace[l].ok
